@@ -8,7 +8,7 @@ from values import QForall, ObjLV, Ptr
 import C07
 
 PROP = 'C08'
-CONFIGS = [{'SIMUCELL3D_VERIF_CONTACT_MODEL_INDEX': 1}]
+CONFIGS = [{'SIMUCELL3D_VERIF_CONTACT_MODEL_INDEX': 1}, {'SIMUCELL3D_VERIF_CONTACT_MODEL_INDEX': 2}]
 I = z3.IntSort()
 
 
@@ -279,6 +279,16 @@ def post_iter_structure(C):
 
 
 def build(reg, cfg):
+    if cfg['SIMUCELL3D_VERIF_CONTACT_MODEL_INDEX'] == 2:
+        # the other compile-time form of a stored cross-reference: the per-node map of couplings of the face-face model (C07 contract re-run):
+        # key = position index of the partner cell, value = (id of a node of the visited face of that cell, squared distance), entered on both sides
+        sub = __import__('spec').Registry()
+        C07.build(sub, cfg)
+        for c in sub.contracts:
+            if c.qname == 'contact_face_face_via_coupling::resolve_contact' and c.post is not None and 'precondition of the contact rule' not in c.name:
+                c.prop = PROP; c.name = c.name + ' [as in C07: couplings are stored under the position index of the partner cell and name a node of the visited face]'
+                reg.add(c)
+        return
     reg.add(Contract('solver::solver', PROP, signature='global_simulation_parameters', pre=pre_ctor_ids, post=post_ctor_ids, slice_loop=0, name='solver::solver::<id loop body>'))
     reg.add(Contract('cell_divider::run', PROP, pre=pre_division_body, post=post_division_body, slice_loop=0, use=[divide_contract()], safety={'bounds'},
                      name='cell_divider::run::<division loop body>'))
@@ -315,6 +325,23 @@ def build(reg, cfg):
 
 
 # ------------------------------------------------------------------------------------------------ native replay (population level)
+def _division_obligation(ob):
+    return 'cell_divider::run' in (ob.info.get('contract') or '') or 'cell_divider::run' in (ob.info.get('fn') or '')
+
+
+def replay(ob, ins, run):
+    """refuted obligations about cell_divider::run are replayed on the real routine: a row of six cells, several of them dividing in the same
+    pass (driver of C09: position indices against list positions, duplicate ids, emptied mothers, id counter); other obligations have no
+    native scenario here"""
+    if not _division_obligation(ob): return {'confirmed': False, 'output': 'no native scenario for this obligation'}
+    import C09
+    return C09.replay(ob, ins, run)
+
+
+def replay_recorded(data):
+    import C09
+    return C09.replay_recorded(data)
+
 EXPLANATION = ("Contracts on the places where identities are created and where the population list changes: the id loop of the solver constructor "
                "(arbitrary iteration: persistent id = position index = counter value, counter advances); cell_divider::run - an arbitrary "
                "iteration of the division loop with divide_cell by contract (nullopt or two fresh cells): daughters get the next two unused "
